@@ -273,7 +273,7 @@ fn phases_bc(env: &Env, rec: &mut Rec) {
         run_child(1, 3, env.seed.wrapping_mul(31).wrapping_add(k as u64), "B", rec);
     }
     // Phase C: many threads from the very first call
-    let nc = env.n(24, 600);
+    let nc = env.n(66, 900);
     for k in 0..nc {
         let threads = [16usize, 32, 64, 16][k % 4];
         run_child(threads, 1 + k % 2, env.seed.wrapping_mul(131).wrapping_add(k as u64), "C", rec);
